@@ -40,6 +40,19 @@ def run_endpoints(rep, kf, tier, seed, prop):
             for opid, rs in (("op_resp", resp), ("op_resp_none", {"200": {"description": ""}, "404": {"description": ""}})):
                 for entry in ("_parse_response", "_build_response"):
                     contracts.append((opid, ef.parse_response_contract(pkg, doc, opid, rs, version, entry)))
+        if prop == "C03" and version == "3.0.3":
+            import contracts.client_f as clf
+            for c in clf.all_contracts(pkg):
+                def ctask(c=c):
+                    r = core.Report(prop, tier, seed)
+                    engine_b.discharge(r, kf, [c], prop, tier, seed)
+                    for o in r.obligations:
+                        o.id = o.id.replace(".B.", ".F.")
+                        o.backend = "z3 (fragment rendered by the real templates)"
+                        o.unit = "templates client.py.jinja as rendered (client module of the schematic package)"
+                        o.where = "openapi_python_client/templates/client.py.jinja"
+                    return r
+                tasks.append(ctask)
         for opid, c in contracts:
             def task(c=c, opid=opid, version=version):
                 r = core.Report(prop, tier, seed)
